@@ -172,7 +172,14 @@ func c07Worker(seed uint64, thorough bool, part string) int {
 					data = append(data, ' ')
 				}
 				data = data[:ln]
-				for _, atEnd := range []bool{true, false} {
+				variants := [][]byte{data}
+				if ln > 0 && (thorough || ln%2 == 1 || ln > 30) {
+					// a haystack without any byte of the pattern: prefilter kernels scan it to the very end (and the tail code
+					// of a vector kernel runs on exactly ln%32 / ln%16 bytes)
+					variants = append(variants, bytes.Repeat([]byte{'q'}, ln), bytes.Repeat([]byte{0xff}, ln))
+				}
+				for vi := 0; vi < 2*len(variants); vi++ {
+					data, atEnd := variants[vi/2], vi%2 == 0
 					h := g.place(data, atEnd)
 					try("guard", []byte(p), h)
 					safe(fmt.Sprintf("%q on %d bytes against the %s guard page", p, ln, map[bool]string{true: "trailing", false: "leading"}[atEnd]), func() string {
